@@ -23,7 +23,8 @@ def main():
     extra = sys.argv[3:]
     src = '/tmp/seed_%s_out/%s' % (pid, n)
     wt = '/tmp/intake_%s_%s' % (pid, n)
-    meta = {'property': pid, 'source': 'independent sub-agent given only the property text and a scratch worktree'}
+    meta = {'property': pid, 'source': 'independent sub-agent given only the property text and a scratch worktree',
+            'base_commit': subprocess.check_output(['git', '-C', '/repo', 'rev-parse', '--short', 'HEAD']).decode().strip()}
     sh('git -C /repo worktree remove --force %s' % wt)
     rc, out = sh('git -C /repo worktree add -q %s HEAD' % wt)
     assert rc == 0, out
